@@ -46,6 +46,7 @@ def lean_env():
 
 def build_lean(pid):
     """returns (driver_ok, props_ok, log)"""
+    sh([sys.executable, os.path.join(VERIF, "tools", "gen_lean_roots.py")])
     rc, out = sh(["lake", "build", "PS", "psdriver"], cwd=LEAN, timeout=3600)
     if rc != 0:
         return False, False, out
@@ -326,8 +327,7 @@ def check_main(args):
     pid = args.pid
     os.makedirs(os.path.join(VERIF, "evidence"), exist_ok=True)
     os.makedirs(os.path.join(VERIF, "replays"), exist_ok=True)
-    mod = importlib.import_module(f"harness.{pid.lower()}_meta") if os.path.exists(os.path.join(HERE, f"{pid.lower()}_meta.py")) else None
-    meta = json.load(open(os.path.join(HERE, "meta.json")))[pid]
+    meta = json.load(open(os.path.join(HERE, "meta", f"{pid}.json")))
     known = [k for k in json.load(open(os.path.join(VERIF, "known_findings.json")))["findings"] if k["property"] == pid]
     open_findings = {k["id"]: k for k in known if k.get("status") == "open"}
 
